@@ -5,6 +5,7 @@ writer threads under the cooperative scheduler with virtual time. The demultiple
 off the transport, queue put/get, buffer reads) are replayed by the Lean data-plane model (Model/AdbMux.lean,
 conservation invariant), the reader-election / condition-variable actions by the wake-up model, and the Lean
 spec judges what every reader obtained and what the device received."""
+import os
 import struct
 import threading
 
@@ -220,6 +221,9 @@ def _body(case, res):
         streams[si].write(data, timeout_ms=tmo)
         s.log('app-wrote', streams[si]._transport, len(data))
       except Exception as e:  # pylint: disable=broad-except
+        if os.environ.get('VERIF_DEBUG'):
+          import traceback
+          traceback.print_exc()
         errs['w%d' % ti] = c15._errkind(e, ue)
 
     ths = []
@@ -702,6 +706,11 @@ def gen_cases(rng, tier):
   for first in (0, 1, 2):
     for partial in (0, 2, 5):
       cases.append({'kind': 'closedbuf', 'first': first, 'partial': partial})
+  # corpus: a writer on a stream the device has closed, next to a writer on another stream (the first repair of the
+  # refused-OPEN race made this writer sit in the transport read until its time-out; found by the thorough tier)
+  for rseed in (4256505681, 1, 2, 3):
+    cases.append({'dev': [[1, 'Z', '']], 'early': 0, 'maxdata': 3, 'nstreams': 2, 'rseed': rseed, 'switch': 0.5,
+                  'threads': [['W', 0, 'ABCDEFG'], ['W', 1, 'FGHIJK']], 'timeout_ms': 2000})
   # a write whose acknowledgement is late, followed by more writes
   for writes in (2, 3):
     for rel in (None, 0, 1):
